@@ -1,7 +1,7 @@
 import SqlProofs.LexRegions
 import SqlProofs.Lex.Dollar
 /-!
-# SqlProofs.LexDollar — a dollar-quoted literal `$tag$ … $tag$` is one token (rule 11 of the generated table)
+# SqlProofs.LexDollar — a dollar-quoted literal `$tag$ … $tag$` is one token (the rule is located in the generated table by its content)
 -/
 namespace Sql
 
@@ -11,28 +11,26 @@ namespace Sql
 def tagStartSet : CpSet :=
   ⟨[(65, 90), (95, 95), (97, 122), (192, 220), (224, 246), (248, 252), (304, 305), (383, 383), (8490, 8491)]⟩
 
-theorem re11_eq : Gen.re11 = dollarRe Gen.atom20 tagStartSet Gen.wordSet := by
-  have h19 : Gen.atom19 = tagStartSet := by decide +kernel
-  have h18 : Gen.atom18 = Gen.wordSet := by decide +kernel
-  rw [← h19, ← h18]
-  rfl
+/-- the look-behind class `[\w"$]` -/
+def dollarLbSet : CpSet := ⟨(34, 34) :: (36, 36) :: Gen.wordSet.ranges⟩
 
-/-- the look-behind class of the rule is `[\w"$]` -/
-theorem atom20_ranges : Gen.atom20.ranges = (34, 34) :: (36, 36) :: Gen.wordSet.ranges := by decide +kernel
+/-- the dollar-quote rule `((?<![\w"$])\$(?:[_A-ZÀ-Ü]\w*)?\$)[\s\S]*?\1` with action `Literal` -/
+def dollarRule : Rule := ⟨dollarRe dollarLbSet tagStartSet Gen.wordSet, .tok T.Literal⟩
 
 theorem mem_ranges_cons2 (S T : CpSet) (a b a' b' : Nat) (h : S.ranges = (a, b) :: (a', b') :: T.ranges) (c : Nat) :
     S.mem c = ((decide (a ≤ c) && decide (c ≤ b)) || ((decide (a' ≤ c) && decide (c ≤ b')) || T.mem c)) := by
   simp [CpSet.mem, h]
 
-theorem dead_before_dollar : ((Gen.rules.take 11).all fun r => start 36 r.re == .dead) = true := by decide +kernel
+/-- table obligation: the dollar-quote rule is in the table and no rule before it can start at `$` -/
+theorem dollar_rule_first : firstWith (deadOn 36) dollarRule defaultCfg.rules = true := by decide +kernel
 
 theorem lb_mem_false (c : Nat) (hw : Gen.wordSet.mem c = false) (h34 : c ≠ 34) (h36 : c ≠ 36) :
-    Gen.atom20.mem c = false := by
+    dollarLbSet.mem c = false := by
   have e1 : (decide (34 ≤ c) && decide (c ≤ 34)) = false := by
     rw [Bool.and_eq_false_iff, decide_eq_false_iff_not, decide_eq_false_iff_not]; omega
   have e2 : (decide (36 ≤ c) && decide (c ≤ 36)) = false := by
     rw [Bool.and_eq_false_iff, decide_eq_false_iff_not, decide_eq_false_iff_not]; omega
-  rw [mem_ranges_cons2 Gen.atom20 Gen.wordSet 34 34 36 36 atom20_ranges c, e1, e2, hw]
+  rw [mem_ranges_cons2 dollarLbSet Gen.wordSet 34 34 36 36 rfl c, e1, e2, hw]
   rfl
 
 /-- a dollar-quote tag: empty, or `[_A-ZÀ-Ü]` followed by `\w` characters -/
@@ -52,7 +50,7 @@ theorem dollar_quoted_token (s : Array Cp) (p : Nat) (pre tag body rest : List C
     sfx_of_split s pre _ p (by simpa using h) hp
   have hc := get_of_drop_cons _ p 36 _ (by simpa using h0)
   have hlb' : p = 0 ∨ ∃ c, (defaultCfg.env s).s[p - 1]? = some c ∧
-      Gen.atom20.mem c = false := by
+      dollarLbSet.mem c = false := by
     cases hl : pre.getLast? with
     | none =>
       left
@@ -78,12 +76,7 @@ theorem dollar_quoted_token (s : Array Cp) (p : Nat) (pre tag body rest : List C
       have hlow : (defaultCfg.env s).lower = sreLower := by simp [LexCfg.env, defaultCfg]
       rw [hlow]
       exact this)
-  have hr : derivs (defaultCfg.env s) Gen.rule11.re ⟨p, []⟩ = st :: more := by
-    show derivs _ Gen.re11 _ = _
-    rw [re11_eq]; exact hd
-  have hpre := no_match_of_start (defaultCfg.env s) 36 (Gen.rules.take 11) dead_before_dollar p hc
-  have hsplit : defaultCfg.rules = Gen.rules.take 11 ++ Gen.rule11 :: Gen.rules.drop 12 := rfl
-  rw [hsplit, firstMatch_split _ _ Gen.rule11 _ p hpre st more hr, hpos]
+  rw [firstMatch_first _ (deadOn 36) dollarRule _ p dollar_rule_first (fun x hx => deadOn_at _ 36 x hx p hc) st more hd, hpos]
   rfl
 
 end Sql
